@@ -28,8 +28,9 @@ type VerifRouter struct {
 	apply func(*proto.ShardAssignments) error
 }
 
-func VerifNewRouter(namespace string) *VerifRouter {
-	sm, apply := internal.VerifNewShardManager(namespace)
+// VerifNewRouter: a nil hashFunc means the real key hash (common/hash.Xxh332).
+func VerifNewRouter(namespace string, hashFunc func(string) uint32) *VerifRouter {
+	sm, apply := internal.VerifNewShardManager(namespace, hashFunc)
 	return &VerifRouter{sm: sm, apply: apply}
 }
 
@@ -46,6 +47,11 @@ func (r *VerifRouter) Shard(key string) int64 {
 // Shards lists the shards the client currently knows.
 func (r *VerifRouter) Shards() []int64 {
 	return r.sm.GetAll()
+}
+
+// Table lists the shards the client currently knows as (id, min hash, max hash).
+func (r *VerifRouter) Table() [][3]int64 {
+	return internal.VerifShardTable(r.sm)
 }
 
 func (r *VerifRouter) Close() error {
